@@ -234,6 +234,8 @@ def _shard_entry(args):
     mod = importlib.import_module(mod_name)
     rec = Recorder()
     try:
+        if hasattr(mod, 'preload'):
+            mod.preload()
         mod.shard(rec, idx, nshards, seed, tier)
     except Exception:
         return dict(error=traceback.format_exc(), partial=rec.to_dict())
@@ -298,10 +300,11 @@ def run_check(mod, tier: str, replay: Optional[str]) -> int:
     if nshards == 1:
         results = [_shard_entry(args[0])]
     else:
-        import gc
-        gc.collect()
-        gc.freeze()   # keep the preloaded schema out of the children's GC (less COW)
-        ctx = multiprocessing.get_context('fork')
+        # fresh interpreters, not forks: forked children share the parent's
+        # anon_vma chains and page tables, and this workload (CPython data-stack
+        # chunks are mmap'ed/munmap'ed constantly by the deeply recursive
+        # compilers) then serialises in the kernel; measured 7x slower.
+        ctx = multiprocessing.get_context('spawn')
         with ctx.Pool(min(nshards, os.cpu_count() or 1)) as pool:
             results = pool.map(_shard_entry, args, chunksize=1)
     for r in results:
